@@ -148,7 +148,7 @@ def trigtree(rng, depth, funs):
 
 
 def t2s_case(rng):
-    arg = rng.choice(SYMS + ["(mul (i 2) x)", "(add x (i 1))", "(div x y)", "(q 1 3)", "(pow x (i 2))", "(f1 sin x)"])
+    arg = rng.choice(SYMS + ["(mul (i 2) x)", "(add x (i 1))", "(div x y)", "(pow x (i 2))", "(f1 sin x)", "(mul I y)"])
     return "(f1 %s (f1 %s %s))" % (rng.choice(TRIG), rng.choice(ITRIG + ["asinh", "log"]), arg)
 
 
@@ -175,7 +175,7 @@ def cnum(rng, depth):
         return "(pow %s %s)" % (a, rng.choice(["(i 2)", "(i 3)", "(i -1)", "(i -2)", "(i 4)", "(i 5)", "(i 7)", "(i 8)", "(i -3)",
                                                "(i 15)", "(i 16)", "(i 17)", "(i -5)", "(i 0)", "(i 1)"]))
     if r < 0.78:
-        return "(pow %s %s)" % (a, rng.choice(["(q 1 2)", "(q -1 2)", "(q 1 3)", "(q 2 3)", "I", "pi", "(c 1 1 1 1)"]))
+        return "(pow %s %s)" % (a, rng.choice(["(q 1 2)", "(q -1 2)", "(q 1 3)", "(q 2 3)", "(q 3 2)"]))
     if r < 0.84:
         return "(div %s %s)" % (a, cnum(rng, depth - 1))
     if r < 0.96:
@@ -252,7 +252,7 @@ def parse_fields(line):
             continue
         for sep in (":", "="):
             tag, s, rest = part.partition(sep)
-            if s and tag.isalpha() and tag.isupper() and len(tag) <= 4:
+            if s and tag.isalnum() and tag.isupper() and len(tag) <= 4:
                 fields[tag] = rest
                 break
     return fields, oracles
@@ -326,7 +326,7 @@ def explore(ctx, drv, model, cases, search=False):
             # the model's own no_neg_exp_top on its (equal) trees must agree with the driver's oracle
             if not any(o.startswith("nd-negexp") for o in orcs):
                 mismatch("NNE", i, "no_neg_exp_top: model 0, library oracle silent", impl[i], m)
-        rec = [op + "=" + mf[op] for op in RECIPE_OPS if op in mf and mf[op] not in NOT_MODELLED]
+        rec = [op + "=" + mf[op] for op in RECIPE_OPS if op in mf and mf[op] not in NOT_MODELLED and not mf[op].startswith("CRASH")]
         for op in RECIPE_OPS:
             if mf.get(op) in NOT_MODELLED:
                 stats[op]["not_modelled"] += 1
